@@ -11,6 +11,7 @@
 """
 from __future__ import annotations
 
+import contextlib
 import copy
 import math
 import random
@@ -591,6 +592,55 @@ def metamorphic_case(env, chk, case):
                    "missing_inside_visit": inside, "padded": len(set(D.n_visits_per_individual)) > 1})
 
 
+@contextlib.contextmanager
+def noise_monitor(env, chk, cj, D):
+    """Call-through on the real maximisation step of a fit: after every step the noise estimate must be the root-mean-square
+    residual over OBSERVED entries of the statistics in force (own float64 accumulation with the documented schedule:
+    memory-less up to n_burn_in + 1, then R <- R + e (r - R), e = (k - n_burn_in)^-power)."""
+    torch = env.torch
+    from leaspy.algo.fit.mcmc_saem import TensorMcmcSaemAlgorithm as A
+    orig = A._maximization_step
+    mem = {"R": None, "M": None, "reported": False}
+    y, w = D.values.double(), (D.mask > 0).double()
+    yy = torch.where(w > 0, y, torch.zeros_like(y))
+
+    def wrapped(self, model, state):
+        mod = state["model"]
+        mod = (mod.weighted_value if isinstance(mod, env.WT) else mod).double()
+        r = (w * (yy - mod) ** 2)
+        mag = (w * (yy ** 2 + 2 * (yy * mod).abs() + mod ** 2))
+        k, nb = self.current_iteration, self.algo_parameters["n_burn_in_iter"]
+        if mem["R"] is None or k <= nb + 1:
+            mem["R"], mem["M"] = r, mag
+        else:
+            e = float(k - nb) ** (-self.algo_parameters["burn_in_step_power"])
+            mem["R"] = mem["R"] * (1.0 - e) + e * r
+            mem["M"] = mem["M"] * (1.0 - e) + e * mag
+        out = orig(self, model, state)
+        try:
+            if "noise_std" in state.dag and not mem["reported"]:
+                got = state["noise_std"].double().reshape(-1) ** 2
+                dims = (0, 1, 2) if got.numel() == 1 else (0, 1)
+                want = (mem["R"].sum(dim=dims) / w.sum(dim=dims)).reshape(-1)
+                tol = 256 * EPS32 * (mem["M"].sum(dim=dims) / w.sum(dim=dims)).reshape(-1) + 1e-30
+                if bool(torch.isfinite(want).all()) and not bool(((got - want).abs() <= tol).all()):
+                    mem["reported"] = True
+                    phase = "memory-less" if k <= nb + 1 else f"averaged (iteration {k}, n_burn_in {nb})"
+                    chk.impl_failure(dict(cj, iteration=k),
+                                     f"fit iteration {k} [{phase}]: noise_std**2 {got.tolist()} is not the mean squared residual over "
+                                     f"observed entries of the statistics in force {want.tolist()}")
+                chk.tag("fit_noise_monitor", "memory-less" if k <= nb + 1 else "averaged")
+        except Exception as e:  # noqa  — monitor problems must not hide the fit
+            chk.tag("fit_noise_monitor", f"skipped:{type(e).__name__}")
+        return out
+
+    A._maximization_step = wrapped
+    try:
+        yield
+    finally:
+        A._maximization_step = orig
+
+
 def fresh_model(env, case, D):
     kw = dict(dimension=case["n_ft"], source_dimension=case["src"])
     if case["noise"] in ("scalar", "diagonal"):
@@ -617,7 +667,8 @@ def fit_and_personalize(env, chk, case, cj, D, vr):
         try:
             with core.quiet():
                 m = fresh_model(env, case, D)   # initialisation always from the clean dataset
-                m.fit(Dv, "mcmc_saem", n_iter=case["n_iter"], n_burn_in_iter=case["n_burn"], seed=case["seed"], progress_bar=False)
+                with noise_monitor(env, chk, dict(cj, variant=f"fit-{name}", pad=pad), Dv):
+                    m.fit(Dv, "mcmc_saem", n_iter=case["n_iter"], n_burn_in_iter=case["n_burn"], seed=case["seed"], progress_bar=False)
             for p, v in m.parameters.items():
                 out[f"fit[{p}]"] = v.detach().clone()
         except Exception as e:  # noqa
